@@ -32,6 +32,12 @@ type VOther struct {
 func (v *VOther) Label() string { return v.Q }
 
 // three levels of anonymous embedding, the innermost with several fields of one kind
+// VHolder holds a two-name registered struct by value
+type VHolder struct {
+	O   VOther `json:"o"`
+	Tag string `json:"tag"`
+}
+
 type VEmb3 struct {
 	Alpha int64  `json:"alpha"`
 	Beta  int64  `json:"beta"`
@@ -77,6 +83,8 @@ type VAll struct {
 func (a *VAll) EchoSelf() *VAll              { return a }
 func (a *VAll) EchoInner(in *VInner) *VInner { return in }
 func (a *VAll) MakeInner() *VInner           { return &VInner{S: "made", N: 42} }
+func (a *VAll) MakeOther() *VOther           { return &VOther{Q: "made"} }
+func (a *VAll) OtherByValue() VHolder        { return VHolder{O: VOther{Q: "held"}, Tag: "t"} }
 func (a *VAll) SumInts() int {
 	s := 0
 	for _, x := range a.Ints {
@@ -92,7 +100,8 @@ func c10register() {
 		r := &zygo.GoStructRegistry
 		r.RegisterUserdef(&zygo.RegisteredType{GenDefMap: true, Factory: func(env *zygo.Zlisp, h *zygo.SexpHash) (interface{}, error) { return &VAll{}, nil }}, true, "vall")
 		r.RegisterUserdef(&zygo.RegisteredType{GenDefMap: true, Factory: func(env *zygo.Zlisp, h *zygo.SexpHash) (interface{}, error) { return &VInner{}, nil }}, true, "vinner")
-		r.RegisterUserdef(&zygo.RegisteredType{GenDefMap: true, Factory: func(env *zygo.Zlisp, h *zygo.SexpHash) (interface{}, error) { return &VOther{}, nil }}, true, "vother")
+		r.RegisterUserdef(&zygo.RegisteredType{GenDefMap: true, Factory: func(env *zygo.Zlisp, h *zygo.SexpHash) (interface{}, error) { return &VHolder{}, nil }}, true, "vholder")
+		r.RegisterUserdef(&zygo.RegisteredType{GenDefMap: true, Factory: func(env *zygo.Zlisp, h *zygo.SexpHash) (interface{}, error) { return &VOther{}, nil }}, true, "vother", "VOtherAlias") // two names: registry walks must still be deterministic (C20)
 	})
 }
 
